@@ -64,13 +64,26 @@ mod verif_kani_zbsdiff {
     #[kani::unwind(6)]
     #[kani::stub(alloc::fmt::format, empty_format)]
     fn apply_matches_oracle_bounded() {
+        check_shape([(2, 1, 0), (1, 1, 0)]);
+    }
+
+    /// C16 (thorough; bounded: triples of shape (0,2,s1),(3,0,s2): extra first, then a diff run that reads
+    /// past the end of old)
+    #[kani::proof]
+    #[kani::unwind(6)]
+    #[kani::stub(alloc::fmt::format, empty_format)]
+    fn apply_matches_oracle_shape2() {
+        check_shape([(0, 2, 0), (3, 0, 0)]);
+    }
+
+    fn check_shape(shape: [(i64, i64, i64); 2]) {
         let oldb: [u8; 3] = kani::any();
         let diffb: [u8; 3] = kani::any();
         let extrab: [u8; 2] = kani::any();
         let s1: i64 = kani::any();
         let s2: i64 = kani::any();
         kani::assume(s1 >= -4 && s1 <= 4 && s2 >= -4 && s2 <= 4);
-        let c: [(i64, i64, i64); 2] = [(2, 1, s1), (1, 1, s2)];
+        let c: [(i64, i64, i64); 2] = [(shape[0].0, shape[0].1, s1), (shape[1].0, shape[1].1, s2)];
         let expected: usize = kani::any();
         kani::assume(expected <= 6);
         let mut entries = Vec::new();
